@@ -126,6 +126,32 @@ fn run_trip(ctx: &Ctx, id: u64, st: &mut Stats) {
         ma.set_clock(save_clock);
         *st.by_kind.entry("ignored-paging-writes-before-save".into()).or_insert(0) += 1;
     }
+    // a save that fails half way (recorder full or broken) must leave the machine alone as well
+    if rng.chance(1, 6) {
+        let full = sna_len(&a);
+        let mut frec = crate::host::FailingRecorder { data: vec![], limit: *rng.pick(&[0usize, 1, 26, 27, 28, 100, 49178, 49179, 49181, 49182, 60000]) % full.max(1), kind: rng.below(2) as u8 };
+        let cb = capture(&mut ma);
+        let hb = ma.cpu().halted;
+        let r = crate::host::catch(|| ma.emu.save_snapshot(SnapshotRecorder::Sna(&mut frec)).is_ok());
+        let ca = capture(&mut ma);
+        *st.by_kind.entry("save-into-a-failing-recorder".into()).or_insert(0) += 1;
+        match r {
+            Err(_) => {
+                ctx.violation(&format!("save:panic:{}", panic_sig()), "save_snapshot panicked when the recorder gave up", base(J::Str(crate::last_panic())));
+                return;
+            }
+            Ok(true) => {
+                ctx.violation("save:failing-recorder-reported-ok", &format!("save_snapshot returned Ok although the recorder accepted only {} of {} bytes", frec.limit, full), base(J::Null));
+                return;
+            }
+            Ok(false) => {}
+        }
+        if reg_items(&cb.r) != reg_items(&ca.r) || cb.pages != ca.pages || (cb.latch, cb.locked, cb.border) != (ca.latch, ca.locked, ca.border) || hb != ma.cpu().halted {
+            let what = if cb.pages != ca.pages { "memory" } else if reg_items(&cb.r) != reg_items(&ca.r) { "registers" } else { "paging, border or halted state" };
+            ctx.violation(&format!("save-side-effect:failed-save:{}", what.split(',').next().unwrap_or("")), &format!("a save that failed after {} bytes changed the machine's {}", frec.limit, what), base(J::Null));
+            return;
+        }
+    }
     let mut rec = VecRecorder { data: vec![], chunk: *rng.pick(&[0usize, 0, 1, 1000, 16384]) };
     let res = crate::host::catch(|| ma.emu.save_snapshot(SnapshotRecorder::Sna(&mut rec)).map_err(|e| format!("{:?}", e)));
     match res {
